@@ -187,6 +187,12 @@ pub struct ElementRef<'a, Traits: ?Sized + Trait = dyn None, M: MemBuilder = mem
     pub(crate) ManuallyDrop<Element<'a, Traits, M>>
 );
 impl<'a, Traits: ?Sized + Trait, M: MemBuilder> ElementReference<'a, Traits, M> for ElementRef<'a, Traits, M>{}
+// ElementRef is shared (and Clone) reference. Like `&AnyVec`, it is Send only if AnyVec is Sync.
+// (Without this, it would inherit Send from `Element`, which require only AnyVec: Send.)
+unsafe impl<'a, Traits: ?Sized + Trait, M: MemBuilder> Send for ElementRef<'a, Traits, M>
+where
+    AnyVec<Traits, M>: Sync
+{}
 impl<'a, Traits: ?Sized + Trait, M: MemBuilder> Deref for ElementRef<'a, Traits, M>{
     type Target = Element<'a, Traits, M>;
 
